@@ -56,9 +56,7 @@ Src(e) ==
   /\ srcFailed' = (srcFailed \/ e.err = "injected")
   /\ UNCHANGED <<mode, b, given, rerr, gated, grp, gout>>
 
-SrcFailedC(e) ==
-  \* a source that has reported a non-EOF error is not asked again after the Reader has passed the error on
-     Chk("HARNESS.src_within_release", e.pos <= b.sLen)
+SrcFailedC(e) == {}
 
 \* The Reader asked a gated source for more than the released prefix.
 Gate(e) ==
@@ -104,8 +102,12 @@ ReadFailed(e) ==
   \cup Chk("C03.eof_only_if_valid", (first /\ e.err = "eof") => (b.ref.verdict = "eof" /\ g2 = b.ref.len))
   \cup Chk("C07.eof_only_if_checksum", (cont /\ first /\ e.err = "eof") => (b.ref.verdict = "eof" /\ g2 = b.ref.len /\ e.ok))
   \cup Chk("C03.error_class", (first /\ e.err \notin {"nil", "eof", "injected"}) => AllowedFinal(e.err, e.dead))
+  \cup Chk("C07.prefix_only", cont => (e.ok /\ g2 <= b.ref.len))
   \cup Chk("C07.cut_is_uxeof", (cont /\ first /\ e.err # "nil" /\ b.cut /\ ~srcFailed) => e.err = "uxeof")
   \cup Chk("C02.same_as_std", (first /\ e.err # "nil" /\ b.std.verdict = "eof" /\ ~srcFailed) => (e.err = "eof" /\ g2 = b.std.len))
+  \cup Chk("C06.readback", (cont /\ first /\ e.err # "nil" /\ b.std.verdict = "eof" /\ ~srcFailed) => (e.err = "eof" /\ g2 = b.std.len))
+  \cup Chk("C06.bytes", cont => e.ok)
+  \cup Chk("C08.concat", (b.kind = "gzip" /\ first /\ e.err # "nil" /\ b.std.verdict = "eof" /\ ~srcFailed) => (e.err = "eof" /\ g2 = b.ref.len /\ e.ok))
   \cup Chk("C15.reported", (first /\ e.err # "nil" /\ srcFailed) =>
              (e.err = "injected" \/ (e.err = "eof" /\ b.ref.verdict = "eof" /\ pulled >= b.ref.end)))
   \cup Chk("C15.not_invented", (first /\ e.err = "injected") => srcFailed)
